@@ -419,14 +419,13 @@ def gen_count_cases(ctx, n_docs, tag="c"):
     for d in range(n_docs):
         names = rng.choice(NAMESETS)
         all_explicit = rng.random() < 0.7
-        # the default count pattern of a processing instruction does not parse (K-new-4): no PIs then
-        doc = gen_doc(rng, rng.choice([6, 10, 16, 24, 32]), names, leafy=rng.choice([0.0, 0.0, 0.1]), pis=all_explicit)
+        doc = gen_doc(rng, rng.choice([6, 10, 16, 24, 32]), names, leafy=rng.choice([0.0, 0.0, 0.1]), pis=True)
         nodes = index(doc)
         src = serialize(doc)
         for _ in range(2):
             level = rng.choice(["single", "multiple", "any", "any"])
             explicit = all_explicit or rng.random() < 0.4
-            cpat = gen_pattern(rng, names) if explicit else None
+            cpat = gen_pattern(rng, names, for_from=rng.random() < 0.3) if explicit else None   # sometimes matches the root
             fpat = gen_pattern(rng, names, for_from=True) if rng.random() < 0.5 else None
             fmt = rng.choice(FORMATS)
             gsep, gsize = (rng.choice([",", " ", "'"]), rng.choice([1, 2, 3])) if rng.random() < 0.15 else (None, 0)
@@ -714,14 +713,14 @@ def pi_default_case():
 def attr_default_case():
     """K-new-2: the default count pattern of an attribute node is built with '&' instead of '@'"""
     s = ('<xsl:stylesheet version="1.0" xmlns:xsl="%s"><xsl:output method="text"/><xsl:template match="/">'
-         '<xsl:for-each select="//@*"><xsl:number/>,</xsl:for-each></xsl:template></xsl:stylesheet>') % XSL
-    return {"id": "kattr", "sheet": s, "source": '<d a="1" b="2"/>'}
+         '<xsl:for-each select="//@*"><xsl:number/>-<xsl:number level="any"/>-<xsl:number level="multiple" count="@*|*"/>,</xsl:for-each></xsl:template></xsl:stylesheet>') % XSL
+    return {"id": "kattr", "sheet": s, "source": '<d a="1" b="2"><e b="3"/></d>'}
 
 
 def run(ctx):
     ctx.assumptions += [
-        "count / from patterns are observed through their per-node truth values (the pattern matcher itself is C09/C10/C15); the count pattern never matches the document node",
-        "numbered nodes are the root, elements, text, comment and processing-instruction nodes (attribute nodes: known finding K-new-2; namespace nodes not numbered)",
+        "count / from patterns are observed through their per-node truth values (the pattern matcher itself is C09/C10/C15)",
+        "numbered nodes in the generated streams are the root, elements, text, comment and processing-instruction nodes; attribute nodes by a fixed probe; namespace nodes not numbered",
         "format strings are ASCII; letter-value, lang and the Greek / unsupported numbering letters are outside the model",
         "values passed through value= are below 2^64 (CountType(double) is undefined above)",
         "XSLT 1.0 section 7.7 read literally: 'the first node before the current node that matches from' / 'nearest ancestor that matches from' exclude the current node itself",
@@ -759,7 +758,7 @@ def run(ctx):
 
     # K-new-2 (attribute nodes) is outside the generators: one fixed probe
     r = xsltrun.run([attr_default_case()])["kattr"]
-    if r[0] == "ok" and r[1] == b"1,1,":
+    if r[0] == "ok" and r[1] == b"1-1-1.1,1-1-1.1,1-1-1.1.1,":
         pass
     elif r[0] == "err" and "'&" in r[2] and "K-new-2" in known:
         orc.append({"case": None, "item": None, "known": "K-new-2", "what": "default count pattern for an attribute node"})
